@@ -18,7 +18,8 @@ for i in range(1, 21):
         if d.startswith(pid + "-"):
             mm = json.load(open(f"{R}/seeded/{d}/meta.json"))
             lr = mm.get("last_run", {}).get("results", {}).get(pid)
-            if lr is None: seeds.append(d.split("-")[1] + ":not run")
+            if "obsolete" in mm: seeds.append(d.split("-")[1] + ":obsolete")
+            elif lr is None: seeds.append(d.split("-")[1] + ":not run")
             elif lr["exit"] != 1: seeds.append(d.split("-")[1] + ":MISSED")
             else: seeds.append(d.split("-")[1] + (":replay" if any("no-failing-input-found" not in v for v in lr["violations"]) else ":corr"))
     rows.append(f"| {pid} | {models} | {len(thms)} ({', '.join(obs[:4])}) | {nq} | {m['technique'][:110]} | {' '.join(seeds)} |")
